@@ -89,7 +89,30 @@ func (c *Ctx) analyseBuf(rule string, fn *ssa.Function, pi int, regionIn region,
 				}
 				switch reg[dst] {
 				case rSuffix:
-					if sl, ok := dst.(*ssa.Slice); ok && sl.X == ssa.Value(fn.Params[pi]) {
+					// the spare-capacity slice itself, or what a chain started on it has grown into (the scratch slice
+					// appended to in a loop is a phi of that slice and the appends' results)
+					var fromSpare func(v ssa.Value, depth int) bool
+					fromSpare = func(v ssa.Value, depth int) bool {
+						if depth > 6 {
+							return false
+						}
+						switch x := v.(type) {
+						case *ssa.Slice:
+							return x.X == ssa.Value(fn.Params[pi])
+						case *ssa.Phi:
+							for _, ed := range x.Edges {
+								if ed != v && fromSpare(ed, depth+1) {
+									return true
+								}
+							}
+						case *ssa.Call:
+							if bi, ok := x.Call.Value.(*ssa.Builtin); ok && bi.Name() == "append" {
+								return fromSpare(x.Call.Args[0], depth+1)
+							}
+						}
+						return false
+					}
+					if fromSpare(dst, 0) {
 						shadow = in
 					}
 				case rPrefix, rBuffer:
@@ -279,8 +302,20 @@ func (c *Ctx) forkedAppends(rule string, fn *ssa.Function, reg map[ssa.Value]reg
 				byDst[dst] = append(byDst[dst], call)
 			}
 			// an appending helper of the module (its result is built on the slice it was handed): a chain member too
-			if f := c.StaticCallee(&call.Call); !appendLike && f != nil && inRepo(f) && reg[call] != rNone && reg[call] != rBuffer {
-				if _, isSlice := call.Type().Underlying().(*types.Slice); isSlice {
+			resReg := reg[call]
+			if _, isTuple := call.Type().(*types.Tuple); isTuple && call.Referrers() != nil {
+				for _, r := range *call.Referrers() {
+					if ex, ok := r.(*ssa.Extract); ok && ex.Index == 0 && reg[ex] != rNone {
+						resReg = reg[ex]
+					}
+				}
+			}
+			if f := c.StaticCallee(&call.Call); !appendLike && f != nil && inRepo(f) && resReg != rNone && resReg != rBuffer {
+				_, isSlice := call.Type().Underlying().(*types.Slice)
+				if tp, ok := call.Type().(*types.Tuple); ok && tp.Len() > 0 { // ([]byte, error): the formatters
+					_, isSlice = tp.At(0).Type().Underlying().(*types.Slice)
+				}
+				if isSlice {
 					for _, a := range call.Call.Args {
 						if reg[a] != rNone && reg[a] != rBuffer {
 							byDst[a] = append(byDst[a], call)
@@ -367,6 +402,10 @@ func (c *Ctx) forkedAppends(rule string, fn *ssa.Function, reg map[ssa.Value]reg
 								}
 							case *ssa.Phi:
 								d = x
+							case *ssa.Extract:
+								if _, isSlice := x.Type().Underlying().(*types.Slice); isSlice && x.Index == 0 {
+									d = x
+								}
 							case *ssa.Call:
 								if len(x.Call.Args) > 0 && x.Call.Args[0] == v && reg[x] != rNone {
 									d = x
